@@ -32,6 +32,7 @@ class BVUnit:
         self.bound = bound
         self.unwindset = list(unwindset)
         self.note = note
+        self.ghost = ghost or {}
 
     def name(self):
         return re.sub(r"[^A-Za-z0-9]+", "_", self.label).strip("_")
@@ -98,7 +99,7 @@ def _build_bv(tu, unit, workdir, contract_override=None):
     bodies = [unit.target] + [b for b in unit.bodies if b != unit.target]
     callee_contracts = {q: contracts[q] for q in unit.replace}
     src, em = cxx2c.build_unit(tu, workdir, bodies, contracts=callee_contracts, loop_contracts=unit.loop_contracts,
-                               spec_prelude=bvspec.prelude() + unit.spec_prelude)
+                               spec_prelude=bvspec.prelude() + unit.spec_prelude, ghost=unit.ghost)
     wname, wtext = witness_wrapper(em, f, tgt_contract)
     src += "\n/* ---- contract carrier + harness (generated) ---- */\n" + wtext
     # every function that is called but neither inlined nor replaced is an extraction error
@@ -110,7 +111,22 @@ def _build_bv(tu, unit, workdir, contract_override=None):
     cfile = os.path.join(workdir, unit.name() + ".c")
     with open(cfile, "w") as fh:
         fh.write(src)
-    return cfile, wname, [tu.func(q).cname for q in unit.replace], em
+    # only callees the extracted bodies really call are replaced (goto-instrument rejects unknown names);
+    # a contract for a callee that the current working tree does not call is simply unused
+    return cfile, wname, [tu.func(q).cname for q in unit.replace if tu.func(q).cname in em.called], em
+
+
+def _is_called(src, cname):
+    """cname is called from some emitted body (a line ending in ';' or inside an expression, not a prototype line)"""
+    for l in src.splitlines():
+        if cname + "(" in l:
+            st = l.strip()
+            if st.endswith(");") and re.match(r"^(?:const\s+)?[A-Za-z_][\w ]*\**\s*\**\s*" + re.escape(cname) + r"\(", st) and "=" not in st.split(cname)[0]:
+                # prototype or plain call statement: a prototype has a type before the name
+                if re.match(r"^(?:const\s+)?(?:void|_Bool|int|unsigned long|unsigned int|jpv_u128|uint\d+_t|size_t|[A-Z]\w*)\s*\**\s+\**" + re.escape(cname) + r"\(", st):
+                    continue
+            return True
+    return False
 
 
 def run_bv(tu, unit, workdir):
